@@ -572,6 +572,28 @@ fn split_to_checked(trans: &mut Bytes, len: usize) -> Result<Bytes, ThriftExcept
     Ok(trans.split_to(len))
 }
 
+/// A container header declares how many entries follow. Every entry occupies at least
+/// `min_entry_len` bytes, so a count that cannot fit in the remaining input (or a negative
+/// one) is rejected here instead of being trusted by callers that pre-allocate from it.
+#[inline]
+fn checked_container_size(
+    trans: &Bytes,
+    size: i32,
+    min_entry_len: usize,
+) -> Result<usize, ThriftException> {
+    if size < 0 || (size as usize).saturating_mul(min_entry_len) > trans.len() {
+        return Err(new_protocol_exception(
+            ProtocolExceptionKind::InvalidData,
+            format!(
+                "container size {} exceeds the remaining {} bytes",
+                size,
+                trans.len()
+            ),
+        ));
+    }
+    Ok(size as usize)
+}
+
 impl TInputProtocol for TBinaryProtocol<&mut Bytes> {
     type Buf = Bytes;
 
@@ -721,7 +743,10 @@ impl TInputProtocol for TBinaryProtocol<&mut Bytes> {
     fn read_list_begin(&mut self) -> Result<TListIdentifier, ThriftException> {
         let element_type: TType = self.read_byte().and_then(|n| Ok(field_type_from_u8(n)?))?;
         let size = self.read_i32()?;
-        Ok(TListIdentifier::new(element_type, size as usize))
+        Ok(TListIdentifier::new(
+            element_type,
+            checked_container_size(self.trans, size, 1)?,
+        ))
     }
 
     #[inline]
@@ -733,7 +758,10 @@ impl TInputProtocol for TBinaryProtocol<&mut Bytes> {
     fn read_set_begin(&mut self) -> Result<TSetIdentifier, ThriftException> {
         let element_type: TType = self.read_byte().and_then(|n| Ok(field_type_from_u8(n)?))?;
         let size = self.read_i32()?;
-        Ok(TSetIdentifier::new(element_type, size as usize))
+        Ok(TSetIdentifier::new(
+            element_type,
+            checked_container_size(self.trans, size, 1)?,
+        ))
     }
 
     #[inline]
@@ -746,7 +774,11 @@ impl TInputProtocol for TBinaryProtocol<&mut Bytes> {
         let key_type: TType = self.read_byte().and_then(|n| Ok(field_type_from_u8(n)?))?;
         let value_type: TType = self.read_byte().and_then(|n| Ok(field_type_from_u8(n)?))?;
         let size = self.read_i32()?;
-        Ok(TMapIdentifier::new(key_type, value_type, size as usize))
+        Ok(TMapIdentifier::new(
+            key_type,
+            value_type,
+            checked_container_size(self.trans, size, 2)?,
+        ))
     }
 
     #[inline]
